@@ -38,6 +38,13 @@ def initConsistent (D : Data) : Bool :=
 def InitConsistent (D : Data) : Prop := initConsistent D = true
 instance (D : Data) : Decidable (InitConsistent D) := by unfold InitConsistent; infer_instance
 
+/-- the part of `initConsistent` the aggregate clauses (C11) and the raw-operation invariant need: planning-unit ids
+pairwise distinct, the three pollutant variables carry the same ids, every action's unit is a planning unit.
+Nothing about the attribute records' *contents*. -/
+def unitsOK (D : Data) : Bool :=
+  pusDistinct D.sed0 && D.pn0.map (·.1) = D.sed0.map (·.1) && D.dn0.map (·.1) = D.sed0.map (·.1) &&
+  D.acts.all (fun a => (D.sed0.map (·.1)).contains a.pu)
+
 /-! ### normalisation of extracted initial attribute records
 
 Go derives some initial attribute values by float arithmetic that differs in the last bits from the
